@@ -25,6 +25,32 @@ def enc_fn(name, text, props=("C01", "C02", "C07", "C09"), subs=()):
                name="EncoderState::" + name)
 
 
+STEP = ("requires input non-empty; ensures result matches one dstep of the format automaton on input[0]: Err iff the "
+        "automaton fails, else the new state's view and 1 byte consumed; output appended exactly as dstep emits; no panic")
+BULK = ("ensures consumes k = min(|input|, remaining) > 0 bytes, appends exactly input[..k], state = Before(term) if "
+        "k == remaining else In(remaining - k); pending unchanged; no panic")
+DRUN = ("ensures with (s, out) = drun(view(self), input): Err iff s = Fail; Ok(r) => view(r) = s /\\ bytes' = bytes ++ out; "
+        "pending unchanged (decoder lag is zero); append-only; terminates; no panic")
+
+
+def dec_fn(imp, fn, ovl, name, text, props=("C01", "C07", "C09")):
+    return VFn(DEC, [imp, "fn " + fn], ovl, list(props), text, rules=R, name=name)
+
+
+EI = "impl /^impl<'this> Encoder<'this>/"
+DI = "impl /^impl<'this> Decoder<'this>/"
+WSEM = ("requires inv; ensures inv' /\\ forall z. sem'(z) == sem(data ++ z) /\\ drained-or-drainable prefix kept (frame) /\\ "
+        "other placeholders untouched; no panic")
+UNSAFE_COMPONENTS = ("N9", "unsafe { data.components() }", "data.components()",
+                     "unsafe block around a call to an assumed-contract function removed (AnchoredSlice::components is "
+                     "external_body in the unit; `unsafe` has no operational content)")
+
+
+def w_fn(imp, fn, text, props=("C01", "C02", "C07", "C09"), subs=(), prefix="w_enc_", cls="Encoder"):
+    return VFn(LIB, [imp, "fn " + fn], "%s%s.ovl" % (prefix, fn), list(props), text, rules=R, subs=subs,
+               name="%s::%s" % (cls, fn))
+
+
 HCOBS = VerusUnit(
     name="hcobs",
     uses=["use std::num::NonZeroUsize;", "use std::num::NonZeroU32;"],
@@ -53,6 +79,52 @@ HCOBS = VerusUnit(
                                    "(consumed > 0 or the buffered FE was flushed), forall z. meaning'(z) == "
                                    "meaning(input[..consumed] ++ z)"),
             enc_fn("encode_copy", MEANING, subs=[CLOSURE_COPY]),
+            enc_fn("encode_borrow", MEANING, subs=[CLOSURE_BORROW]),
+            enc_fn("terminate", "requires wf; ensures bytes' == meaning(state, iovec)(empty) = closed output ++ header ++ "
+                                "open chunk, header placeholder no longer pending, frame"),
+        ]),
+        # ---------------- decoder ----------------
+        VGhost("dec_spec.rs"),
+        VItem(DEC, ["struct InitialState"]),
+        VItem(DEC, ["struct BeforeChunk"]),
+        VItem(DEC, ["struct MidHeader"]),
+        VItem(DEC, ["struct InChunk"]),
+        VItem(DEC, ["enum DecoderState"]),
+        VItem(DEC, ["enum DecodingError"]),
+        VItem(DEC, ["type Result"]),
+        VGhost("dec_state_spec.rs"),
+        VImpl("impl InitialState", [dec_fn("impl /^impl InitialState/", "decode", "dec_initial_decode.ovl", "InitialState::decode", STEP)]),
+        VImpl("impl BeforeChunk", [dec_fn("impl /^impl BeforeChunk/", "decode", "dec_before_decode.ovl", "BeforeChunk::decode", STEP)]),
+        VImpl("impl MidHeader", [dec_fn("impl /^impl MidHeader/", "decode", "dec_mid_decode.ovl", "MidHeader::decode", STEP)]),
+        VImpl("impl InChunk", [
+            dec_fn("impl /^impl InChunk/", "update", "dec_inchunk_update.ovl", "InChunk::update",
+                   "requires consumed <= remaining; ensures state = Before(term) if consumed == remaining else In(remaining - consumed); no panic"),
+            dec_fn("impl /^impl InChunk/", "decode_borrow", "dec_inchunk_decode_borrow.ovl", "InChunk::decode_borrow", BULK),
+            dec_fn("impl /^impl InChunk/", "decode_copy", "dec_inchunk_decode_copy.ovl", "InChunk::decode_copy", BULK),
+        ]),
+        VImpl("impl DecoderState", [
+            dec_fn("impl /^impl DecoderState/", "new", "dec_new.ovl", "DecoderState::new", "ensures view = Initial"),
+            dec_fn("impl /^impl DecoderState/", "terminate", "dec_terminate.ovl", "DecoderState::terminate",
+                   "ensures Ok <=> view == Before(insert = true)  (the stream ended on a short chunk)"),
+            dec_fn("impl /^impl DecoderState/", "decode_borrow", "dec_decode_borrow.ovl", "DecoderState::decode_borrow", DRUN),
+            dec_fn("impl /^impl DecoderState/", "decode_copy", "dec_decode_copy.ovl", "DecoderState::decode_copy", DRUN),
+        ]),
+        # ---------------- public wrappers (hcobs/src/lib.rs) ----------------
+        VImpl("impl Default for EncoderState", [VFn(ENC, ["impl /^impl Default for EncoderState/", "fn default"], "enc_default.ovl",
+              ["C01"], "placeholder state used by the wrappers' mem::swap dance; no panic", rules=R, name="EncoderState::default")]),
+        VImpl("impl Default for DecoderState", [VFn(DEC, ["impl /^impl Default for DecoderState/", "fn default"], "dec_default.ovl",
+              ["C01"], "placeholder state; no panic", rules=R, name="DecoderState::default")]),
+        VItem(LIB, ["struct Encoder"]),
+        VItem(LIB, ["struct Decoder"]),
+        VGhost("wrapper_spec.rs"),
+        VImpl("impl<'this> Encoder<'this>", [
+            w_fn(EI, "new_from_iovec", "ensures inv, forall z. sem(z) == iovec.bytes ++ enc_prod(z), other placeholders untouched, frame"),
+            w_fn(EI, "new", "ensures inv, forall z. sem(z) == enc_prod(z), nothing else pending"),
+            w_fn(EI, "encode", WSEM),
+            w_fn(EI, "encode_copy", WSEM),
+            w_fn(EI, "encode_anchored", WSEM, subs=[UNSAFE_COMPONENTS]),
+            w_fn(EI, "finish", "requires inv; ensures returned bytes == sem(empty) = closed output ++ canonical encoding of the open "
+                               "chunk; the encoder's placeholder is filled; frame"),
         ]),
     ],
     lemmas=[],
